@@ -35,16 +35,6 @@ JudgeRead(e) ==
                IN (IF v = "ok" THEN <<>> ELSE << <<"reject", v>> >>) \o (IF a = "ok" \/ e.err = 1 THEN <<>> ELSE << <<"reject", a>> >>)
 
 ShapeWrite(e) == IsSeqOf(e.c, 0..255) /\ IsSeqOf(e.runs, 1..400) /\ e.err \in {0, 1} /\ e.panic \in {0, 1}
-\* what the written UPC/EAN symbol carries as check digit (diagnostic for a rejected event): the check digit read from
-\* the symbol's structure regardless of verification; -1 when the symbol is not even well-formed
-CarriedCheck(sym, r) ==
-  IF sym = "UPCE" /\ Len(r) = 33 THEN
-     LET par == [i \in 1..6 |-> LeftChar(Quad(r, 4 * i))[2]]
-         k0 == IndexIn(PE, par) - 1  k1 == IndexIn(PE, [i \in 1..6 |-> 1 - par[i]]) - 1
-     IN IF k0 >= 0 THEN k0 ELSE k1
-  ELSE IF sym = "EAN8" /\ Len(r) = 43 THEN LeftChar(Quad(r, 37))[1]
-  ELSE IF sym \in {"EAN13", "UPCA"} /\ Len(r) = 59 THEN LeftChar(Quad(r, 53))[1]
-  ELSE -1
 JudgeWrite(e) ==
   IF ~ShapeWrite(e) THEN << <<"reject", "ill-shaped observation">> >>
   ELSE IF e.panic = 1 THEN << <<"reject", "writer panicked">> >>
